@@ -218,8 +218,8 @@ Import Example_enum.
 (** the level enumerates the mapping {1->12, 2->11} etc. once per k-subset; with the doubled enumerator every mapping is
     produced twice and the [seen] set removes the copies *)
 Example no_duplicates_nonvacuous :
-  length (get_mappings G1toG2 (find_common_subgraph [9] false 9 ga gb false)) = 8%nat /\
+  length (get_mappings G1toG2 (find_common_subgraph [9] false 9 ga gb false)) = 10%nat /\
   NoDup (get_mappings G1toG2 (find_common_subgraph [9] false 9 ga gb false)) /\
-  length (fst (fst (search_subgraphs_with vf2' ga gb false))) = 8%nat.
+  length (fst (fst (search_subgraphs_with vf2' ga gb false))) = 10%nat.
 Proof. split; [vm_compute; reflexivity|]. split; [apply get_mappings_nodup|vm_compute; reflexivity]. Qed.
 End Example_nodup.
